@@ -1,2 +1,541 @@
 //! C19 harnesses that need the URI builder's private fields (child module of channel_uri_string_builder.rs via hook H4).
+//!
+//! SETTER FRAME CONDITIONS.  Every public mutator of `ChannelUriStringBuilder` is called once on an ARBITRARY builder
+//! (every `Option<Value>` field: presence and payload symbolic; every string field: absent or present with symbolic
+//! ASCII content, the three validated string fields restricted to the values their own validation lets in) with a
+//! symbolic argument.  The builder is snapshotted field by field before and after the call and compared with the
+//! expected state written from the Aeron builder contract (Java/C++ `ChannelUriStringBuilder`):
+//!   * legal argument  -> Ok, the setter's OWN field is `Some(argument)` (numbers as i64, booleans as 1/0, the encoding
+//!     `build()` prints through `Value::bool_to_string`), EVERY OTHER field is bit-for-bit what it was;
+//!   * illegal argument (mtu outside 32..=65504 or not a multiple of 32; term length below 64 KiB / above 1 GiB / not a
+//!     power of two; term offset above 1 GiB or not a multiple of 32; negative linger; media other than udp/ipc; control
+//!     mode other than manual/dynamic; prefix other than "" / "aeron-spy") -> Err and NO field changed.
+//! By induction over call sequences this gives "each setter affects only its own parameter" for all subsets and orders.
+//! `build()`/`parse()` (String formatting) are out of the solver's reach here; the field -> parameter-name mapping of
+//! `build()` is pinned by the native test /verif/native/tests/c19.rs.
 #![allow(dead_code, unused_imports, unused_variables, unused_mut)]
+use super::*;
+use std::mem;
+
+type B = ChannelUriStringBuilder;
+
+/// Snapshot of an `Option<String>` field: presence, length and the content byte at the probe position `j` (0 beyond the
+/// end).  `j` is one symbolic value per harness, chosen before the pre-state snapshot and never constrained, so "equal
+/// presence, equal length and equal byte at position j" is decided for EVERY j, i.e. it is string equality.
+/// (The probe is carried in the snapshot, not in a `static mut`: Kani 0.68 merges a zero-initialised static with
+/// same-content constants such as `RawVec`'s `Cap::ZERO`, which turned every empty String's capacity symbolic.)
+#[derive(Clone, Copy, PartialEq, Eq)]
+struct S {
+    some: bool,
+    len: usize,
+    byte: u8,
+}
+
+impl S {
+    const NONE: S = S { some: false, len: 0, byte: 0 };
+
+    fn of(s: &str, j: usize) -> S {
+        let b = s.as_bytes();
+        S { some: true, len: b.len(), byte: if j < b.len() { b[j] } else { 0 } }
+    }
+
+    fn opt(o: &Option<String>, j: usize) -> S {
+        match o {
+            None => S::NONE,
+            Some(s) => S::of(s.as_str(), j),
+        }
+    }
+}
+
+/// Snapshot of an `Option<Value>` field.
+#[derive(Clone, Copy, PartialEq, Eq)]
+struct N {
+    some: bool,
+    v: i64,
+}
+
+impl N {
+    const NONE: N = N { some: false, v: 0 };
+
+    fn val(v: i64) -> N {
+        N { some: true, v }
+    }
+
+    fn flag(b: bool) -> N {
+        N { some: true, v: if b { 1 } else { 0 } }
+    }
+
+    fn opt(o: &Option<Value>) -> N {
+        match o {
+            None => N::NONE,
+            Some(x) => N { some: true, v: x.value },
+        }
+    }
+}
+
+macro_rules! cmp_field {
+    ($post:ident, $exp:ident, $own:ident, $which:ident, $f:ident, $t:ident) => {
+        if $which != F::$t as u8 {
+            // another field is looked at on this path (one field per path: a violated field cannot mask the others)
+        } else if $own == F::$t || $own == F::Everything {
+            kani::assert(
+                $post.$f == $exp.$f,
+                concat!("C19: `", stringify!($f), "` does not hold exactly what its own setter was given (its setter stores somewhere else, or stores another value)"),
+            );
+        } else {
+            kani::assert(
+                $post.$f == $exp.$f,
+                concat!("C19: frame condition: `", stringify!($f), "` was changed by a call that must leave it untouched"),
+            );
+        }
+    };
+}
+
+macro_rules! define_snapshot {
+    (str: [$($sf:ident $st:ident),*], num: [$($nf:ident $nt:ident),*]) => {
+        /// Which field a call is allowed to change.
+        #[derive(Clone, Copy, PartialEq, Eq)]
+        enum F { Nothing, Everything, Tagged, $($st,)* $($nt,)* }
+
+        #[derive(Clone, Copy)]
+        struct Snap { probe: usize, $($sf: S,)* $($nf: N,)* tagged: bool }
+
+        fn empty(probe: usize) -> Snap {
+            Snap { probe, $($sf: S::NONE,)* $($nf: N::NONE,)* tagged: false }
+        }
+
+        fn snap(b: &B, probe: usize) -> Snap {
+            Snap { probe, $($sf: S::opt(&b.$sf, probe),)* $($nf: N::opt(&b.$nf),)* tagged: b.is_session_id_tagged }
+        }
+
+        /// `post` must equal `exp` on every field; the message tells the own field from the frame.
+        fn compare(post: &Snap, exp: &Snap, own: F) {
+            let which: u8 = kani::any();
+            $( cmp_field!(post, exp, own, which, $sf, $st); )*
+            $( cmp_field!(post, exp, own, which, $nf, $nt); )*
+            cmp_field!(post, exp, own, which, tagged, Tagged);
+        }
+    };
+}
+
+define_snapshot! {
+    str: [prefix Prefix, media Media, endpoint Endpoint, network_interface NetworkInterface, control_endpoint ControlEndpoint,
+          control_mode ControlMode, tags Tags, alias Alias, cc Cc],
+    num: [reliable Reliable, ttl Ttl, mtu Mtu, term_length TermLength, initial_term_id InitialTermId, term_id TermId,
+          term_offset TermOffset, session_id SessionId, linger Linger, sparse Sparse, eos Eos, tether Tether, group Group,
+          rejoin Rejoin]
+}
+
+/// Symbolic ASCII text of 0..=K bytes.
+struct Txt<const K: usize> {
+    b: [u8; K],
+    n: usize,
+}
+
+impl<const K: usize> Txt<K> {
+    fn any() -> Self {
+        let b: [u8; K] = kani::any();
+        let n: usize = kani::any();
+        kani::assume(n <= K);
+        let mut i = 0;
+        while i < K {
+            kani::assume(b[i] < 0x80);
+            i += 1;
+        }
+        Txt { b, n }
+    }
+
+    fn s(&self) -> &str {
+        unsafe { std::str::from_utf8_unchecked(&self.b[..self.n]) }
+    }
+}
+
+/// string equality for the oracles, byte by byte (texts here are at most 9 bytes)
+fn same(a: &str, b: &str) -> bool {
+    let (a, b) = (a.as_bytes(), b.as_bytes());
+    if a.len() != b.len() {
+        return false;
+    }
+    let mut i = 0;
+    while i < b.len() {
+        if a[i] != b[i] {
+            return false;
+        }
+        i += 1;
+    }
+    true
+}
+
+fn any_num() -> Option<Value> {
+    if kani::any() {
+        Some(Value::new(kani::any()))
+    } else {
+        None
+    }
+}
+
+/// free-form string parameter: absent, or any two ASCII characters
+fn any_text() -> Option<String> {
+    if kani::any() {
+        let t = Txt::<2>::any();
+        kani::assume(t.n == 2);
+        Some(String::from(unsafe { std::str::from_utf8_unchecked(&t.b[..]) }))
+    } else {
+        None
+    }
+}
+
+/// validated string parameter: absent or one of the two values its setter lets in (invariant of every reachable builder)
+fn any_of(a: &str, b: &str) -> Option<String> {
+    let k: u8 = kani::any();
+    match k {
+        0 => None,
+        1 => Some(String::from(a)),
+        _ => Some(String::from(b)),
+    }
+}
+
+fn any_builder() -> B {
+    B {
+        prefix: any_of("", "aeron-spy"),
+        media: any_of("udp", "ipc"),
+        endpoint: any_text(),
+        network_interface: any_text(),
+        control_endpoint: any_text(),
+        control_mode: any_of("manual", "dynamic"),
+        tags: any_text(),
+        alias: any_text(),
+        cc: any_text(),
+        reliable: any_num(),
+        ttl: any_num(),
+        mtu: any_num(),
+        term_length: any_num(),
+        initial_term_id: any_num(),
+        term_id: any_num(),
+        term_offset: any_num(),
+        session_id: any_num(),
+        linger: any_num(),
+        sparse: any_num(),
+        eos: any_num(),
+        tether: any_num(),
+        group: any_num(),
+        rejoin: any_num(),
+        is_session_id_tagged: kani::any(),
+    }
+}
+
+/// Uniform view of what a mutator returned: Some(builder it handed back) or None for Err.
+trait Outcome {
+    fn ok_ptr(self) -> Option<*const B>;
+}
+
+impl Outcome for &mut B {
+    fn ok_ptr(self) -> Option<*const B> {
+        Some(self as *const B)
+    }
+}
+
+impl Outcome for Result<&mut B, AeronError> {
+    fn ok_ptr(self) -> Option<*const B> {
+        match self {
+            Ok(p) => Some(p as *const B),
+            Err(e) => {
+                mem::forget(e);
+                None
+            }
+        }
+    }
+}
+
+macro_rules! refused_cover {
+    (yes, $out:ident) => {
+        kani::cover!($out.is_none(), "[must] refused call explored");
+    };
+    (no, $out:ident) => {
+        kani::assert($out.is_some(), "C19: a setter without a validity rule must not fail");
+    };
+}
+
+/// One harness per mutator: arbitrary builder, symbolic argument, expected state = pre-state with the own field replaced.
+macro_rules! setter {
+    ($name:ident, $own:ident, { $($decl:tt)* }, |$b:ident| $call:expr, legal: $legal:expr, refusable: $rf:tt, |$e:ident| $upd:expr) => {
+        #[kani::proof]
+        fn $name() {
+            let mut bld = any_builder();
+            let probe: usize = kani::any();
+            let pre = snap(&bld, probe);
+            $($decl)*
+            let legal: bool = $legal;
+            let me = &bld as *const B;
+            let out = {
+                let $b = &mut bld;
+                Outcome::ok_ptr($call)
+            };
+            let post = snap(&bld, probe);
+            match out {
+                Some(p) => {
+                    kani::assert(legal, concat!("C19: ", stringify!($name), ": an illegal value was accepted (the Aeron builder contract requires an error and an unchanged builder)"));
+                    kani::assert(p == me, "C19: a setter hands back the builder it was called on");
+                    let mut exp = pre;
+                    {
+                        let $e = &mut exp;
+                        $upd;
+                    }
+                    compare(&post, &exp, F::$own);
+                }
+                None => {
+                    kani::assert(!legal, concat!("C19: ", stringify!($name), ": a legal value was refused"));
+                    compare(&post, &pre, F::Nothing);
+                }
+            }
+            kani::cover!(out.is_some(), "[must] accepted call explored");
+            refused_cover!($rf, out);
+            mem::forget(bld);
+        }
+    };
+}
+
+// ---- validated string setters -------------------------------------------------------------------------------------
+
+// @verif tier=quick unwind=11
+setter!(c19_set_prefix, Prefix,
+    { let t = Txt::<9>::any(); let k: u8 = kani::any(); let v: &str = match k { 0 => "", 1 => "aeron-spy", _ => t.s() }; },
+    |b| b.prefix(v), legal: same(v, "") || same(v, "aeron-spy"), refusable: yes,
+    |e| e.prefix = S::of(v, e.probe));
+
+// @verif tier=quick unwind=11
+setter!(c19_set_media, Media,
+    { let t = Txt::<4>::any(); let k: u8 = kani::any(); let v: &str = match k { 0 => "udp", 1 => "ipc", _ => t.s() }; },
+    |b| b.media(v), legal: same(v, "udp") || same(v, "ipc"), refusable: yes,
+    |e| e.media = S::of(v, e.probe));
+
+// @verif tier=quick unwind=11
+setter!(c19_set_control_mode, ControlMode,
+    { let t = Txt::<7>::any(); let k: u8 = kani::any(); let v: &str = match k { 0 => "manual", 1 => "dynamic", _ => t.s() }; },
+    |b| b.control_mode(v), legal: same(v, "manual") || same(v, "dynamic"), refusable: yes,
+    |e| e.control_mode = S::of(v, e.probe));
+
+// ---- free-form string setters -------------------------------------------------------------------------------------
+
+// @verif tier=quick unwind=11
+setter!(c19_set_endpoint, Endpoint, { let t = Txt::<4>::any(); let v = t.s(); },
+    |b| b.endpoint(v), legal: true, refusable: no, |e| e.endpoint = S::of(v, e.probe));
+
+// @verif tier=quick unwind=11
+setter!(c19_set_network_interface, NetworkInterface, { let t = Txt::<4>::any(); let v = t.s(); },
+    |b| b.network_interface(v), legal: true, refusable: no, |e| e.network_interface = S::of(v, e.probe));
+
+// @verif tier=quick unwind=11
+setter!(c19_set_control_endpoint, ControlEndpoint, { let t = Txt::<4>::any(); let v = t.s(); },
+    |b| b.control_endpoint(v), legal: true, refusable: no, |e| e.control_endpoint = S::of(v, e.probe));
+
+// @verif tier=quick unwind=11
+setter!(c19_set_tags, Tags, { let t = Txt::<4>::any(); let v = t.s(); },
+    |b| b.tags(v), legal: true, refusable: no, |e| e.tags = S::of(v, e.probe));
+
+// @verif tier=quick unwind=11
+setter!(c19_set_alias, Alias, { let t = Txt::<4>::any(); let v = t.s(); },
+    |b| b.alias(v), legal: true, refusable: no, |e| e.alias = S::of(v, e.probe));
+
+// @verif tier=quick unwind=11
+setter!(c19_set_congestion_control, Cc, { let t = Txt::<4>::any(); let v = t.s(); },
+    |b| b.congestion_control(v), legal: true, refusable: no, |e| e.cc = S::of(v, e.probe));
+
+// ---- numeric setters ----------------------------------------------------------------------------------------------
+
+// @verif tier=quick unwind=11
+setter!(c19_set_ttl, Ttl, { let v: u8 = kani::any(); },
+    |b| b.ttl(v), legal: true, refusable: no, |e| e.ttl = N::val(v as i64));
+
+// @verif tier=quick unwind=11
+setter!(c19_set_mtu, Mtu, { let v: u32 = kani::any(); },
+    |b| b.mtu(v), legal: v >= 32 && v <= 65504 && v % 32 == 0, refusable: yes, |e| e.mtu = N::val(v as i64));
+
+// @verif tier=quick unwind=11
+setter!(c19_set_term_length, TermLength, { let v: i32 = kani::any(); },
+    |b| b.term_length(v), legal: v >= 64 * 1024 && v <= 1024 * 1024 * 1024 && (v as u32).count_ones() == 1, refusable: yes,
+    |e| e.term_length = N::val(v as i64));
+
+// @verif tier=quick unwind=11
+setter!(c19_set_initial_term_id, InitialTermId, { let v: i32 = kani::any(); },
+    |b| b.initial_term_id(v), legal: true, refusable: no, |e| e.initial_term_id = N::val(v as i64));
+
+// @verif tier=quick unwind=11
+setter!(c19_set_term_id, TermId, { let v: i32 = kani::any(); },
+    |b| b.term_id(v), legal: true, refusable: no, |e| e.term_id = N::val(v as i64));
+
+// @verif tier=quick unwind=11
+setter!(c19_set_term_offset, TermOffset, { let v: u32 = kani::any(); },
+    |b| b.term_offset(v), legal: v <= 1024 * 1024 * 1024 && v % 32 == 0, refusable: yes,
+    |e| e.term_offset = N::val(v as i64));
+
+// @verif tier=quick unwind=11
+setter!(c19_set_session_id, SessionId, { let v: i32 = kani::any(); },
+    |b| b.session_id(v), legal: true, refusable: no, |e| e.session_id = N::val(v as i64));
+
+// @verif tier=quick unwind=11
+setter!(c19_set_linger, Linger, { let v: i64 = kani::any(); },
+    |b| b.linger(v), legal: v >= 0, refusable: yes, |e| e.linger = N::val(v));
+
+// ---- boolean setters (stored as Value 1 / 0, printed by build() through Value::bool_to_string) -------------------
+
+// @verif tier=quick unwind=11
+setter!(c19_set_reliable, Reliable, { let v: bool = kani::any(); },
+    |b| b.reliable(v), legal: true, refusable: no, |e| e.reliable = N::flag(v));
+
+// @verif tier=quick unwind=11
+setter!(c19_set_sparse, Sparse, { let v: bool = kani::any(); },
+    |b| b.sparse(v), legal: true, refusable: no, |e| e.sparse = N::flag(v));
+
+// @verif tier=quick unwind=11
+setter!(c19_set_eos, Eos, { let v: bool = kani::any(); },
+    |b| b.eos(v), legal: true, refusable: no, |e| e.eos = N::flag(v));
+
+// @verif tier=quick unwind=11
+setter!(c19_set_tether, Tether, { let v: bool = kani::any(); },
+    |b| b.tether(v), legal: true, refusable: no, |e| e.tether = N::flag(v));
+
+// @verif tier=quick unwind=11
+setter!(c19_set_group, Group, { let v: bool = kani::any(); },
+    |b| b.group(v), legal: true, refusable: no, |e| e.group = N::flag(v));
+
+// @verif tier=quick unwind=11
+setter!(c19_set_rejoin, Rejoin, { let v: bool = kani::any(); },
+    |b| b.rejoin(v), legal: true, refusable: no, |e| e.rejoin = N::flag(v));
+
+// @verif tier=quick unwind=11
+setter!(c19_set_is_session_tagged, Tagged, { let v: bool = kani::any(); },
+    |b| b.is_session_tagged(v), legal: true, refusable: no, |e| e.tagged = v);
+
+// ---- resets -------------------------------------------------------------------------------------------------------
+
+// @verif tier=quick unwind=11
+setter!(c19_reset_prefix, Prefix, {},
+    |b| b.reset_prefix(), legal: true, refusable: no, |e| e.prefix = S::NONE);
+
+// @verif tier=quick unwind=11
+setter!(c19_reset_reliable, Reliable, {},
+    |b| b.reset_reliable(), legal: true, refusable: no, |e| e.reliable = N::NONE);
+
+// @verif tier=quick unwind=11
+setter!(c19_reset_rejoin, Rejoin, {},
+    |b| b.reset_rejoin(), legal: true, refusable: no, |e| e.rejoin = N::NONE);
+
+/// clear() forgets every parameter, the prefix, the media and the session-id tag flag.
+// @verif tier=quick unwind=11
+#[kani::proof]
+fn c19_clear_forgets_everything() {
+    let mut bld = any_builder();
+    let probe: usize = kani::any();
+    let pre = snap(&bld, probe);
+    bld.clear();
+    let post = snap(&bld, probe);
+    compare(&post, &empty(probe), F::Everything);
+    kani::cover!(pre.session_id.some && pre.prefix.some && pre.tagged, "[must] non-empty builder explored");
+    mem::forget(bld);
+}
+
+/// Every setter once on a fresh builder (legal symbolic values): each field ends up with the value given to ITS setter.
+// @verif tier=quick unwind=11
+#[kani::proof]
+fn c19_all_setters_once() {
+    let probe: usize = kani::any();
+    let mut b = B::default();
+    let ttl: u8 = kani::any();
+    let (mtu, toff): (u32, u32) = (kani::any(), kani::any());
+    let (tlen, itid, tid, sid): (i32, i32, i32, i32) = (kani::any(), kani::any(), kani::any(), kani::any());
+    let linger: i64 = kani::any();
+    let (rel, sp, eos, teth, grp, rej, tag): (bool, bool, bool, bool, bool, bool, bool) =
+        (kani::any(), kani::any(), kani::any(), kani::any(), kani::any(), kani::any(), kani::any());
+    kani::assume(mtu >= 32 && mtu <= 65504 && mtu % 32 == 0);
+    kani::assume(toff <= 1 << 30 && toff % 32 == 0);
+    kani::assume(tlen >= 1 << 16 && tlen <= 1 << 30 && (tlen as u32).count_ones() == 1);
+    kani::assume(linger >= 0);
+    let dynamic: bool = kani::any();
+    let mode = if dynamic { "dynamic" } else { "manual" };
+    crate::vok!(b.prefix("aeron-spy"), "C19: legal prefix refused");
+    crate::vok!(b.media("udp"), "C19: legal media refused");
+    b.endpoint("e").network_interface("i").control_endpoint("c");
+    crate::vok!(b.control_mode(mode), "C19: legal control mode refused");
+    b.tags("t").alias("a").congestion_control("g").reliable(rel).ttl(ttl);
+    crate::vok!(b.mtu(mtu), "C19: legal mtu refused");
+    crate::vok!(b.term_length(tlen), "C19: legal term length refused");
+    b.initial_term_id(itid).term_id(tid);
+    crate::vok!(b.term_offset(toff), "C19: legal term offset refused");
+    b.session_id(sid);
+    crate::vok!(b.linger(linger), "C19: legal linger refused");
+    b.sparse(sp).eos(eos).tether(teth).group(grp).rejoin(rej).is_session_tagged(tag);
+    let exp = Snap {
+        probe,
+        prefix: S::of("aeron-spy", probe),
+        media: S::of("udp", probe),
+        endpoint: S::of("e", probe),
+        network_interface: S::of("i", probe),
+        control_endpoint: S::of("c", probe),
+        control_mode: S::of(mode, probe),
+        tags: S::of("t", probe),
+        alias: S::of("a", probe),
+        cc: S::of("g", probe),
+        reliable: N::flag(rel),
+        ttl: N::val(ttl as i64),
+        mtu: N::val(mtu as i64),
+        term_length: N::val(tlen as i64),
+        initial_term_id: N::val(itid as i64),
+        term_id: N::val(tid as i64),
+        term_offset: N::val(toff as i64),
+        session_id: N::val(sid as i64),
+        linger: N::val(linger),
+        sparse: N::flag(sp),
+        eos: N::flag(eos),
+        tether: N::flag(teth),
+        group: N::flag(grp),
+        rejoin: N::flag(rej),
+        tagged: tag,
+    };
+    let post = snap(&b, probe);
+    compare(&post, &exp, F::Everything);
+    kani::cover!(sid != tid && teth != grp, "[must] distinct values per parameter explored");
+    mem::forget(b);
+}
+
+/// The text build() prints for a boolean parameter: "true" exactly for the stored 1, "false" for the stored 0.
+// @verif tier=quick unwind=11
+#[kani::proof]
+fn c19_bool_value_text() {
+    let probe: usize = kani::any();
+    let v: bool = kani::any();
+    let stored = Value::new(N::flag(v).v);
+    let text = S::of(Value::bool_to_string(&stored), probe);
+    kani::assert(text == S::of(if v { "true" } else { "false" }, probe), "C19: boolean parameter is not printed as the true/false that was set");
+    kani::cover!(v, "[must] true explored");
+    kani::cover!(!v, "[must] false explored");
+}
+
+/// Vacuity witness: the snapshot comparison must notice a field that did change.
+// @verif tier=quick unwind=11 twin=1
+#[kani::proof]
+fn c19_twin_frame_notices_a_changed_field() {
+    let mut bld = any_builder();
+    let probe: usize = kani::any();
+    let pre = snap(&bld, probe);
+    let v: u8 = kani::any();
+    bld.ttl(v);
+    let post = snap(&bld, probe);
+    kani::assert(post.ttl == pre.ttl, "C19: TWIN ttl() claimed to leave `ttl` untouched");
+    mem::forget(bld);
+}
+
+/// build() prints the session id under Aeron's `session-id` name (one concrete id, no other parameter).
+/// Measured: no verdict within the 600 s time box (format!/Display machinery), as the design round predicted; switched
+/// off.  The field -> parameter-name mapping of build() is pinned natively in /verif/native/tests/c19.rs.
+// @verif tier=off unwind=24 timeout=600
+#[kani::proof]
+fn c19_build_prints_session_id_under_its_own_name() {
+    let mut b = B::default();
+    crate::vok!(b.media("ipc"), "C19: legal media refused");
+    b.session_id(7);
+    let s = b.build();
+    kani::assert(same(s.as_str(), "aeron:ipc?session-id=7"), "C19: build() does not print the session id as `session-id=<id>`");
+    mem::forget(s);
+    mem::forget(b);
+}
